@@ -139,6 +139,13 @@ class IoGenProblem(GenProblem):
         if k["metrics"] and rng.random() < 0.6:
             self.add_io_metric()
         self.bad = None
+        for a in self.actions:
+            for e in a.effects:
+                try:
+                    if not e.condition.is_true() and e.condition.simplify().is_constant():
+                        self.bad = "an effect condition simplifies to a constant"
+                except (ZeroDivisionError, AssertionError):
+                    self.bad = "constant division by zero in a generated expression"
         try:
             p.kind
         except (ZeroDivisionError, AssertionError):
@@ -319,9 +326,10 @@ def key_lower(kind, item):
 class IoSer:
     """Gallina rendering of one problem under a ViewNames numbering."""
 
-    def __init__(self, problem, names):
+    def __init__(self, problem, names, split_intervals=False):
         self.problem = problem
         self.names = names
+        self.split_intervals = split_intervals      # PDDL normal form of durative conditions (see cond_parts)
         p = problem
         self.types = list(p.user_types)
         self.fluents = list(p.fluents)
@@ -419,24 +427,58 @@ class IoSer:
         return "{| ti_lo := %s; ti_hi := %s; ti_lopen := %s; ti_ropen := %s |}" % (
             self.timing(iv.lower), self.timing(iv.upper), gbool(iv.is_left_open()), gbool(iv.is_right_open()))
 
+    def seffect(self, e):
+        """an effect with every expression simplified (temporal structures are compared structurally modulo the
+        Simplifier, which both writers apply to every expression they print)"""
+        e2 = e.clone()
+        e2.set_value(e.value.simplify())
+        e2.set_condition(e.condition.simplify())
+        return self.effect(e2)
+
+    def cond_parts(self, iv):
+        """PDDL can only say `at start`, `over all` (open interval) and `at end`: a condition over [start, end] is the
+        three conditions at start / over (start, end) / at end, and this is how PDDLWriter prints it.  With
+        split_intervals both problems are put in this form before the structural comparison."""
+        from unified_planning.model.timing import StartTiming, EndTiming, OpenTimeInterval, TimePointInterval
+        if not self.split_intervals or iv.lower == iv.upper:
+            return [self.interval(iv)]
+        parts = []
+        if not iv.is_left_open():
+            parts.append(self.interval(TimePointInterval(iv.lower)))
+        parts.append(self.interval(OpenTimeInterval(iv.lower, iv.upper)))
+        if not iv.is_right_open():
+            parts.append(self.interval(TimePointInterval(iv.upper)))
+        return parts
+
     def daction(self, a):
         n = self.names
         n.set_params(a.parameters)
         d = a.duration
-        conds = [gpair(self.interval(iv), ser_expr(c, n)) for iv, cl in a.conditions.items() for c in cl]
-        effs = [gpair(self.timing(t), self.effect(e)) for t, el in a.effects.items() for e in el]
+        conds = [gpair(part, ser_expr(c.simplify(), n)) for iv, cl in a.conditions.items() for c in cl
+                 for part in self.cond_parts(iv) if not (self.split_intervals and c.simplify().is_true())]
+        effs = [gpair(self.timing(t), self.seffect(e)) for t, el in a.effects.items() for e in el]
         if getattr(a, "continuous_effects", None):
             raise ValueError("continuous effects are outside the model")
         return ("{| da_sig := %s; da_dlo := %s; da_dhi := %s; da_dlopen := %s; da_dropen := %s; da_conds := %s; da_effs := %s |}" % (
-            glist([gn(n.ty(pp.type)) for pp in a.parameters]), ser_expr(d.lower, n), ser_expr(d.upper, n),
+            glist([gn(n.ty(pp.type)) for pp in a.parameters]), ser_expr(d.lower.simplify(), n), ser_expr(d.upper.simplify(), n),
             gbool(d.is_left_open()), gbool(d.is_right_open()), glist(conds), glist(effs)))
 
+    @staticmethod
+    def canon_numbers(text):
+        """canonicalisation used for STRUCTURAL comparisons only: an integer-valued real constant is the integer
+        constant (Real(-3/1) and Int(-3) denote the same number; writers/readers do not preserve the distinction)"""
+        import re
+        return re.sub(r"\(EReal \(qc (\(-?\d+\)%Z) 1%positive\)\)", r"(EInt \1)", text)
+
     def tstruct(self):
+        return self.canon_numbers(self._tstruct())
+
+    def _tstruct(self):
         n, p = self.names, self.problem
         acts = glist([gpair(gn(n.act(a)), self.daction(a)) for a in self.dactions])
         n.set_params([])
-        teffs = [gpair(self.timing(t), self.effect(e)) for t, el in p.timed_effects.items() for e in el]
-        tgoals = [gpair(self.interval(iv), ser_expr(g, n)) for iv, gl in p.timed_goals.items() for g in gl]
+        teffs = [gpair(self.timing(t), self.seffect(e)) for t, el in p.timed_effects.items() for e in el]
+        tgoals = [gpair(self.interval(iv), ser_expr(g.simplify(), n)) for iv, gl in p.timed_goals.items() for g in gl]
         return "{| ts_actions := %s; ts_teffs := %s; ts_tgoals := %s |}" % (acts, glist(teffs), glist(tgoals))
 
 
@@ -501,7 +543,10 @@ def add_temporal(g, rng, target="anml"):
         return rng.choice([0, 0, 1, 2, Fraction(1, 2)]) if anml else 0
 
     def timing():
-        return StartTiming(delay()) if rng.random() < 0.5 else EndTiming(-delay() if rng.random() < 0.5 else 0)
+        if rng.random() < 0.5:
+            return StartTiming(delay())
+        d = delay() if rng.random() < 0.5 else 0
+        return (EndTiming() - d) if d else EndTiming()
 
     for _ in range(rng.randint(1, 2)):
         ptypes = [g.T0 if rng.random() < 0.55 else g.T1 for _ in range(rng.randint(0, 2))]
